@@ -23,6 +23,7 @@ import (
 	"github.com/vektah/gqlparser/v2/parser"
 	"github.com/vektah/gqlparser/v2/validator"
 
+	"verif/internal/deferm"
 	"verif/internal/diffrun"
 	"verif/internal/drive"
 	"verif/internal/ev"
@@ -56,7 +57,7 @@ func main() {
 	}
 	var names []string
 	for n := range registry.Probes {
-		if (strings.HasPrefix(n, "core_") || strings.HasPrefix(n, "rnd_")) {
+		if strings.HasPrefix(n, "core_") || strings.HasPrefix(n, "rnd_") {
 			names = append(names, n)
 		}
 	}
@@ -254,6 +255,67 @@ func child(name, outPath string) {
 			}
 		}
 	}
+	// deferred groups: every resolver point of templated @defer queries, error and panic; the
+	// payload sequence is judged by the incremental-merge client model against the plain reference
+	for di, q := range []string{
+		`{ an { vid ... @defer(label: "outer") { bo { vid ... @defer(label: "inner") { rs a { vid } } } rsn ri } } }`,
+		`{ as(n: 3) { vid ... @defer { rs rbl { vid ... @defer { rs d { nn } } } } } }`,
+		`{ an { ... @defer(label: "x") { rsn } ... @defer(label: "y") { rs bn { vid ... @defer { rs } } } } }`,
+	} {
+		doc, perr := parser.ParseQuery(&ast.Source{Input: q})
+		if perr != nil || len(validator.Validate(env.Schema, doc)) > 0 {
+			count("defer_template_rejected", 1)
+			continue
+		}
+		base := univ.SeedPlan{Seed: uint64(seed)*91 + uint64(di), MaxList: 2, NullPermille: 20}
+		clean := ref.Execute(env, &base, doc, "", nil, ref.Options{})
+		points := append([]string{"<none>"}, uniq(clean.Invocations)...)
+		for _, pt := range points {
+			for _, f := range []univ.Fault{univ.FaultError, univ.FaultPanic} {
+				p := base
+				if pt != "<none>" {
+					p.ForceFault = map[string]univ.Fault{pt: f}
+				} else if f == univ.FaultPanic {
+					continue
+				}
+				p.SchedMode = int(univ.H(pt, q) % 5)
+				cid := diffrun.Case{Probe: name, Kind: "query", Plan: p, Query: q, Extra: map[string]any{"fault_point": pt, "fault": faultName(f), "context": "deferred group"}}
+				b, _ := json.Marshal(cid)
+				caseLog.Write(append(b, '\n'))
+				caseLog.Sync()
+				want := ref.Execute(env, &p, doc, "", nil, ref.Options{})
+				before := srv.Recovers.Load()
+				got := srv.Run(context.Background(), &univ.Run{Plan: &p}, q, "", nil, 30*time.Second)
+				cr.Evals++
+				if got.TimedOut {
+					cr.Inconcl = append(cr.Inconcl, "watchdog fired: "+q)
+					continue
+				}
+				sig, why, info := deferm.Judge(want, got)
+				if why == "" {
+					wantPanics := 0
+					for _, e := range want.Errors {
+						if strings.HasPrefix(e.Class, "panic:") {
+							wantPanics++
+						}
+					}
+					// a fault under a nulled object may legitimately not be reached in defer mode
+					if n := int(srv.Recovers.Load() - before); n > wantPanics {
+						why = fmt.Sprintf("recover hook invoked %d times for %d reachable panics", n, wantPanics)
+					}
+				}
+				if why != "" && sig != "deferred-group-delivered-under-nulled-ancestor" {
+					cr.Violations = append(cr.Violations, map[string]any{"case": cid, "why": "deferred delivery under the injected fault: " + why, "payloads": deferm.Describe(got)})
+					continue
+				}
+				if pt != "<none>" && info.Incremental > 0 {
+					count("fault_"+faultName(f)+"_deferred_group_query", 1)
+					cr.Distinct = append(cr.Distinct, fmt.Sprintf("%s|defer%d|%s|%d", name, di, pt, f))
+				}
+			}
+		}
+	}
+
 	// subscription events: every resolver point under every event, error and panic
 	for si, q := range []string{
 		`subscription { ticks(n: 2) { vid rs bo { vid rs } rbl { vid rs } } }`,
